@@ -12,6 +12,27 @@ use serde_json::json;
 
 pub struct C02;
 
+/// application-level case: the objective in force comes from the configuration and/or the query
+#[derive(Clone, Debug, serde::Serialize, serde::Deserialize)]
+pub struct C02App {
+    /// `search.spec.cost` is the objective the *query* asks for (weights/rates in force)
+    pub search: SearchCase,
+    /// what the configuration file says (differs from the objective where the query overrides)
+    pub cfg_w: (f64, f64),
+    pub cfg_r: (RateSpec, RateSpec),
+    /// 0 = weights from configuration, 1 = query gives all weights, 2 = query gives only the
+    /// distance weight (replacing, not merging: the time weight in force is then 0)
+    pub query_weights: u8,
+    pub query_rates: bool,
+}
+
+#[derive(Clone, Debug, serde::Serialize, serde::Deserialize)]
+#[serde(untagged)]
+pub enum C02Case {
+    App(C02App),
+    Direct(SearchCase),
+}
+
 pub fn effective_wf(case: &SearchCase) -> f64 {
     match &case.alg {
         AlgSpec::Dijkstra => case.query_wf.unwrap_or(0.0),
@@ -20,7 +41,7 @@ pub fn effective_wf(case: &SearchCase) -> f64 {
     }
 }
 
-fn strategy(max_n: usize) -> BoxedStrategy<SearchCase> {
+fn direct_strategy(max_n: usize) -> BoxedStrategy<SearchCase> {
     // (uses_heuristic decides metric vs free lengths)
     any::<bool>()
         .prop_flat_map(move |heuristic| {
@@ -95,16 +116,191 @@ fn strategy(max_n: usize) -> BoxedStrategy<SearchCase> {
         .boxed()
 }
 
+fn app_strategy(max_n: usize) -> BoxedStrategy<C02App> {
+    let leaf = || prop_oneof![Just(RateSpec::Raw), (0.0f64..50.0).prop_map(|f| RateSpec::Factor((f * 16.0).round() / 16.0 + 0.0625))];
+    (
+        direct_strategy(max_n),
+        weights_nonneg(true),
+        (leaf(), leaf()),
+        (leaf(), leaf()),
+        0u8..3,
+        any::<bool>(),
+    )
+        .prop_map(|(mut search, cfg_w, cfg_r, q_r, query_weights, query_rates)| {
+            search.edge_oriented = false;
+            search.reverse = false;
+            let n = search.spec.net.n();
+            if search.o >= n {
+                search.o = 0;
+            }
+            if search.d.map(|d| d >= n || d == search.o).unwrap_or(true) {
+                search.d = Some((search.o + 1) % n);
+            }
+            search.spec.allowed = None;
+            search.spec.cost.edge_surcharge = None;
+            // rates expressible in a configuration file / query (no nested combined)
+            search.spec.cost.r_dist = q_r.0;
+            search.spec.cost.r_time = q_r.1;
+            if query_weights == 2 {
+                search.spec.cost.w_time = 0.0;
+                if search.spec.cost.w_dist == 0.0 {
+                    search.spec.cost.w_dist = 1.0;
+                }
+            }
+            // in the application the features contributed by the traversal model replace the
+            // configured ones: the state is kept in the speed model's own units, from zero
+            if let TravSpec::Speed { dist_unit, time_unit, .. } = &search.spec.trav {
+                search.spec.state = StateSpec {
+                    dist_unit: *dist_unit,
+                    dist_init: 0.0,
+                    time_unit: *time_unit,
+                    time_init: 0.0,
+                };
+            }
+            if !matches!(search.spec.trav, TravSpec::Speed { .. }) {
+                search.spec.cost.w_time = 0.0;
+                if search.spec.cost.w_dist == 0.0 {
+                    search.spec.cost.w_dist = 1.0;
+                }
+            }
+            C02App {
+                search,
+                cfg_w,
+                cfg_r,
+                query_weights,
+                query_rates,
+            }
+        })
+        .boxed()
+}
+
+fn check_app(c: &C02App) -> Outcome {
+    use crate::appbuild::*;
+    let mut o = Outcome::new();
+    o.label("through-application");
+    o.label_if(c.query_weights > 0, "query-override-weights");
+    o.label_if(c.query_weights == 2, "query-weights-omit-time");
+    o.label_if(c.query_rates, "query-override-rates");
+    o.label_if(c.search.query_wf.is_some(), "query-override-weight-factor");
+    let sc = &c.search;
+    let has_time = sc.spec.has_time();
+    let mut app = AppSpec::simple(sc.spec.net.clone());
+    app.trav = sc.spec.trav.clone();
+    app.state = Some(sc.spec.state.clone());
+    app.alg = sc.alg.clone();
+    let obj = &sc.spec.cost;
+    // configuration: the objective itself where the query does not override, something else where it does
+    if c.query_weights > 0 {
+        app.w_dist = c.cfg_w.0;
+        app.w_time = c.cfg_w.1;
+        if app.w_dist + app.w_time == 0.0 {
+            app.w_dist = 1.0;
+        }
+    } else {
+        app.w_dist = obj.w_dist;
+        app.w_time = obj.w_time;
+    }
+    if c.query_rates {
+        app.r_dist = c.cfg_r.0.clone();
+        app.r_time = c.cfg_r.1.clone();
+    } else {
+        app.r_dist = obj.r_dist.clone();
+        app.r_time = obj.r_time.clone();
+    }
+    let dir = crate::engine::CaseDir::new();
+    let (capp, _files) = match build_app(&app, &dir) {
+        Ok(a) => a,
+        Err(e) => {
+            o.fail("C02/app/build-error", json!({"error": e}));
+            return o;
+        }
+    };
+    let mut q = serde_json::Map::new();
+    q.insert("origin_vertex".into(), json!(sc.o));
+    q.insert("destination_vertex".into(), json!(sc.d.unwrap()));
+    match c.query_weights {
+        1 => {
+            let mut w = serde_json::Map::new();
+            w.insert(DIST.into(), json!(obj.w_dist));
+            if has_time {
+                w.insert(TIME.into(), json!(obj.w_time));
+            }
+            q.insert("weights".into(), serde_json::Value::Object(w));
+        }
+        2 => {
+            q.insert("weights".into(), json!({DIST: obj.w_dist}));
+        }
+        _ => {}
+    }
+    if c.query_rates {
+        let mut r = serde_json::Map::new();
+        r.insert(DIST.into(), obj.r_dist.to_json());
+        if has_time {
+            r.insert(TIME.into(), obj.r_time.to_json());
+        }
+        q.insert("vehicle_rates".into(), serde_json::Value::Object(r));
+    }
+    if let Some(w) = sc.query_wf {
+        q.insert("weight_factor".into(), json!(w));
+    }
+    let query = serde_json::Value::Object(q);
+    let resp = match capp.run(vec![query.clone()], Some(&json!({"parallelism": 1}))) {
+        Ok(r) if r.len() == 1 => r.into_iter().next().unwrap(),
+        Ok(r) => {
+            o.fail("C02/app/response-count", json!({"responses": r.len()}));
+            return o;
+        }
+        Err(e) => {
+            o.fail("C02/app/run-error", json!({"error": e.to_string()}));
+            return o;
+        }
+    };
+    if resp.get("error").is_some() {
+        o.label("app-error-response");
+        return o;
+    }
+    let ids: Vec<usize> = match resp.get("route").and_then(|r| r.get("path")).and_then(|p| p.as_array()) {
+        Some(a) => a.iter().filter_map(|x| x.as_u64().map(|u| u as usize)).collect(),
+        None => {
+            o.fail("C02/app/no-route-path", json!({"response": resp}));
+            return o;
+        }
+    };
+    let g = sc.spec.net.ref_graph();
+    if ids.iter().any(|e| *e >= g.m()) {
+        return o;
+    }
+    let ev = RefEval::new(&sc.spec);
+    let ref_cost: Vec<f64> = (0..g.m()).map(|e| ev.edge_cost(e)).collect();
+    let dist = ref_sssp(&g, &ref_cost, &|_| true, sc.o);
+    let opt = dist[sc.d.unwrap()];
+    let got: f64 = ids.iter().map(|e| ref_cost[*e]).sum();
+    o.nontrivial = ids.len() >= 2 && count_simple_paths(&g, sc.o, sc.d.unwrap(), 2) >= 2 && (c.query_weights > 0 || c.query_rates || sc.query_wf.is_some());
+    if got > opt * (1.0 + 3e-3) + 1e-9 {
+        o.fail(
+            "C02/app/route-is-not-optimal-under-the-objective-in-force-for-the-query",
+            json!({"query": query, "configured_weights": [app.w_dist, app.w_time], "route": ids, "reference_cost_of_route": got, "reference_optimum": opt,
+                   "objective_in_force": {"w_dist": obj.w_dist, "w_time": obj.w_time, "r_dist": obj.r_dist, "r_time": obj.r_time}}),
+        );
+    }
+    o
+}
+
 impl Prop for C02 {
-    type Case = SearchCase;
+    type Case = C02Case;
     fn id(&self) -> &'static str {
         "C02"
     }
     fn rule(&self) -> String {
-        "generated: Dijkstra on networks with free lengths, A* (weight factor in (0,1] from configuration, default, query override, or a query factor on configured Dijkstra) on metrically consistent networks (length >= 1.002 x great-circle + 1 m); distance or speed-table traversal in all unit combinations; non-negative weights with positive sum incl. zeros; rates raw / factor / combined; optional non-negative per-edge surcharge; optional edge-local restriction; forward and reverse; vertex and edge orientation; no access model. Oracles: (1) route cost = label-correcting reference optimum over the implementation's own per-edge costs (1e-9), (2) reference cost of the returned route under SI units <= reference optimum x 1.003, (3) A* cost = Dijkstra cost. non-trivial = returned route has >= 2 edges and at least one other simple origin-destination path exists".to_string()
+        "generated: Dijkstra on networks with free lengths, A* (weight factor in (0,1] from configuration, default, query override, or a query factor on configured Dijkstra) on metrically consistent networks (length >= 1.002 x great-circle + 1 m); distance or speed-table traversal in all unit combinations; non-negative weights with positive sum incl. zeros; rates raw / factor / combined; optional non-negative per-edge surcharge; optional edge-local restriction; forward and reverse; vertex and edge orientation; no access model; one case in 13 goes through a real application built from files whose configuration differs from the objective where the query overrides weights (all, or only some: replacing, not merging), vehicle rates or the weight factor. Oracles: (1) route cost = label-correcting reference optimum over the implementation's own per-edge costs (1e-9), (2) reference cost of the returned route under SI units <= reference optimum x 1.003, (3) A* cost = Dijkstra cost. non-trivial = returned route has >= 2 edges and at least one other simple origin-destination path exists".to_string()
     }
-    fn strategy(&self, tier: Tier) -> BoxedStrategy<SearchCase> {
-        strategy(tier.pick(14, 60))
+    fn strategy(&self, tier: Tier) -> BoxedStrategy<C02Case> {
+        let n = tier.pick(14, 60);
+        prop_oneof![
+            12 => direct_strategy(n).prop_map(C02Case::Direct),
+            1 => app_strategy(n.min(20)).prop_map(C02Case::App),
+        ]
+        .boxed()
     }
     fn cases(&self, tier: Tier) -> u32 {
         tier.pick(60_000, 2_000_000)
@@ -115,7 +311,16 @@ impl Prop for C02 {
             "edge-oriented queries with adjacent origin/destination edges report both edges with real costs (by design); they are not judged against the vertex optimum".into(),
         ]
     }
-    fn check(&self, case: &SearchCase) -> Outcome {
+    fn check(&self, case: &C02Case) -> Outcome {
+        match case {
+            C02Case::Direct(sc) => check_direct(sc),
+            C02Case::App(a) => check_app(a),
+        }
+    }
+}
+
+fn check_direct(case: &SearchCase) -> Outcome {
+    {
         let mut o = Outcome::new();
         let g = case.spec.net.ref_graph();
         let wf = effective_wf(case);
